@@ -796,3 +796,65 @@ theorem step_handover_f (swr : Swr) (env : Env) (w : World) (sc : Sched) (F : Li
     exact ⟨j, w.running[j], shj', v0j, hji, hrj, hgetj, by rw [← hrev.times]; exact h3j, hshj', hhasj', e2, e1⟩
 
 end Kvass.Loop
+
+namespace Kvass.Loop
+open Kvass Kvass.Coord Kvass.Spec
+
+/-- **C08 in the closed loop: a shard that is not in sync is left alone and stays.**  Whatever the
+    faults of the other shards, whether or not `ChangeScale` works: a running sidecar whose shard is
+    not ready, does not answer, or reports another configuration hash and does not accept the pushed
+    configuration, is exactly as it was after the step (no target update reached it), and it is still
+    running (the coordinator does not scale it away while the size is within max-shard). -/
+theorem step_left_alone (swr : Swr) (env : Env) (w : World) (sc : Sched) (F : List Fault) (b : Bool)
+    (hrep : w.replicas ≤ w.shards.length)
+    (hidle : ∀ sh ∈ w.running, Sidecar.IdleInv sh.sc) (hmax : (w.replicas : Int) ≤ env.opt.maxShard)
+    {i : Nat} {sh : Shard} (hrun : w.running[i]? = some sh)
+    (hsync : inSync (probeOf env sh (faultAt F i)) = false) :
+    i < (step swr env w (.cycle sc F b)).replicas ∧ (step swr env w (.cycle sc F b)).shards[i]? = some sh := by
+  show i < (cycleStep swr env w sc F b).1.replicas ∧ (cycleStep swr env w sc F b).1.shards[i]? = some sh
+  have hrl := running_length w hrep
+  have hpl := inputOf_probes_length env w F b
+  have hp := inputOf_probe_f env w F b i sh hrun
+  have hil : i < w.replicas := by
+    have := (List.getElem?_eq_some_iff.mp hrun).1
+    rw [hrl] at this; exact this
+  -- its requests are the reads only
+  have hreq : ∃ r, (cycle swr sc (inputOf env w F b)).reqs[i]? = some r ∧ r.any isPost = false := by
+    rcases reqs_cases swr sc (inputOf env w F b) hp with h1 | ⟨hne, s, hs, h2⟩
+    · exact ⟨_, h1, getInfo_noIsPost _⟩
+    · have hch := final_changeable swr sc (inputOf env w F b) hne hp hs
+      rw [hsync] at hch
+      have hnil : applyReqs (inputOf env w F b).active (probeOf env sh (faultAt F i)) s = [] := by
+        unfold applyReqs; simp [hch]
+      rw [hnil, List.append_nil] at h2
+      exact ⟨_, h2, getInfo_noIsPost _⟩
+  obtain ⟨r, hr, hnp⟩ := hreq
+  have hsame : (applyOutcome w F (cycle swr sc (inputOf env w F b))).shards[i]? = some sh := by
+    rw [(applyOutcome_shard_f w F _ i sh hrep hrun).1, hr]
+    cases (cycle swr sc (inputOf env w F b)).final[i]? with
+    | none => rfl
+    | some fin => simp only; rw [applyShard_noPost _ _ _ _ _ hnp]
+  -- not in sync ⇒ needed ⇒ below every requested count
+  have hneeded : C07.needed (inputOf env w F b) (probeOf env sh (faultAt F i)) r = true := by
+    unfold C07.needed; simp [hsync]
+  have hmem : (i, probeOf env sh (faultAt F i), r) ∈
+      shardsOf (inputOf env w F b) (Obs.ofOutcome (cycle swr sc (inputOf env w F b))) :=
+    mem_shardsOf.mpr ⟨hp, hr⟩
+  have hge := lastNeeded_ge _ _ hmem hneeded
+  have hn : (((inputOf env w F b).probes.length : Nat) : Int) ≤ (inputOf env w F b).opt.maxShard := by
+    rw [hpl, hrl]; exact hmax
+  have hbelow : ∀ k ∈ (cycle swr sc (inputOf env w F b)).scales, (i : Int) < k := by
+    intro k hk
+    have := Props.C07.C07_keepsNeeded swr sc (inputOf env w F b) (hprod_f env w F b hidle) hn k hk
+    omega
+  obtain ⟨h1, h2⟩ := cycleStep_shard_f swr env w sc F b i sh hrep hil hbelow hsame
+  exact ⟨h2, h1⟩
+
+/-- … and a shard that reports another hash but accepts the pushed configuration is in sync in the
+    same cycle -/
+theorem probeOf_pushed_inSync (env : Env) (sh : Shard) (f : Fault) (hr : f.notReady = false) (hs : f.statusFail = false)
+    (hrt : f.rtFail = false) (hp : f.pushOk = true) : inSync (probeOf env sh f) = true := by
+  unfold inSync probeOf
+  simp [hr, hs, hrt, hp]
+
+end Kvass.Loop
